@@ -26,6 +26,8 @@ CONSTANTS KeySeq,    \* keys hosts / selectors / default subset may use, in Go s
           DVals,     \* values the default subset may carry
           CVals,     \* values criteria may carry on known keys (HVals plus unknown values, "")
           UVals,     \* values criteria carry on unknown keys
+          PrefixLen, \* 0, or: every host carries the first PrefixLen keys with value "1" (wide selectors: the universe
+                     \* is then hosts that agree on a prefix of the sorted keys and differ on the last ones)
           MaxHosts,  \* 0..MaxHosts hosts
           MaxSel,    \* 1..MaxSel subset selectors
           Defects    \* {} = intended design
@@ -36,6 +38,7 @@ K_abx  == <<"a", "b", "x">>
 K_abc  == <<"a", "b", "c">>
 K_abcx == <<"a", "b", "c", "x">>
 K_0abx == <<"0", "a", "b", "x">>
+K_abcde == <<"a", "b", "c", "d", "e">>
 
 None == 0
 Rng(s) == { s[i] : i \in DOMAIN s }
@@ -44,12 +47,22 @@ CKeys == Rng(CKeySeq)
 EmptyMap == [k \in {} |-> ""]
 PMaps(K, V) == UNION { [S -> V] : S \in SUBSET K }        \* every partial map
 
-MdSet  == PMaps(Keys, HVals)
+PrefixKeys == { KeySeq[i] : i \in 1..PrefixLen }
+TailKeys   == Keys \ PrefixKeys
+(* prefix part of a map: every prefix key present; v = value of the last prefix key, "1" on the others *)
+WithPrefix(m, v) == [k \in PrefixKeys \cup DOMAIN m |->
+                       IF k \in PrefixKeys THEN (IF k = KeySeq[PrefixLen] THEN v ELSE "1") ELSE m[k]]
+MdSet  == { WithPrefix(m, "1") : m \in PMaps(TailKeys, HVals) }
 MdSeq  == SetToSeq(MdSet)                                 \* some fixed order, used to list host multisets once
-Crits  == { c \in PMaps(CKeys, CVals \cup UVals) :
-              /\ \A k \in DOMAIN c \ Keys : c[k] \in UVals
-              /\ \A k \in DOMAIN c \cap Keys : c[k] \in CVals }
-SelUniverse == SUBSET Keys      \* includes the selector without keys, which selects nothing
+TailCrits == { c \in PMaps(CKeys \ PrefixKeys, CVals \cup UVals) :
+                 /\ \A k \in DOMAIN c \ Keys : c[k] \in UVals
+                 /\ \A k \in DOMAIN c \cap Keys : c[k] \in CVals }
+(* criteria: without the prefix keys, with the hosts' prefix, with a prefix no host carries *)
+Crits  == IF PrefixLen = 0 THEN TailCrits
+          ELSE TailCrits \cup { WithPrefix(c, "1") : c \in TailCrits } \cup { WithPrefix(c, "2") : c \in TailCrits }
+(* selector key sets; includes the selector without keys, which selects nothing *)
+SelUniverse == IF PrefixLen = 0 THEN SUBSET Keys
+               ELSE (SUBSET TailKeys) \cup { PrefixKeys \cup X : X \in SUBSET TailKeys }
 
 VARIABLES hosts,    \* sequence of metadata maps (partial: a host may lack any key)
           sels,     \* set of selector key sets
@@ -140,7 +153,7 @@ NonDecr(n) == { s \in [1..n -> 1..Len(MdSeq)] : \A i, j \in 1..n : i < j => s[i]
 Init == /\ \E n \in 0..MaxHosts : \E s \in NonDecr(n) : hosts = [i \in 1..n |-> MdSeq[s[i]]]
         /\ sels \in { X \in SUBSET SelUniverse : Cardinality(X) >= 1 /\ Cardinality(X) <= MaxSel }
         /\ pol \in {"none", "any", "default"}
-        /\ dflt \in IF pol = "default" THEN PMaps(Keys, DVals) ELSE {EmptyMap}
+        /\ dflt \in IF pol = "default" THEN PMaps(TailKeys, DVals) ELSE {EmptyMap}
         /\ healthy = DOMAIN hosts
         /\ phase = "cfg" /\ trieF = <<>> /\ trieP = <<>>
 
